@@ -31,6 +31,12 @@ def twap_contract(interp, args, kwargs):
     return p.symtab[("twapvals", p.path_id)][key]
 
 
+def _as_int(x):
+    from pyvc.sym import lift, as_int_term, INT, BOOL
+    v = lift(x)
+    return as_int_term(v) if v.ty in (INT, BOOL) else z3.ToInt(v.t)
+
+
 def get_amounts_contract(interp, args, kwargs):
     """CONTRACT of liquitidy_math.get_amounts(sqrt_price_x96, tickA, tickB, liquidity, d0, d1) (its own obligations are C07's):
     two non-negative amounts, a FUNCTION of (sqrt price, ticks, liquidity).  Everything built on it — get_token_amounts,
@@ -40,7 +46,7 @@ def get_amounts_contract(interp, args, kwargs):
     p = interp.path
     f0 = p.uf("uni_amount0", z3.IntSort(), z3.IntSort(), z3.IntSort(), z3.IntSort(), z3.RealSort())
     f1 = p.uf("uni_amount1", z3.IntSort(), z3.IntSort(), z3.IntSort(), z3.IntSort(), z3.RealSort())
-    a = [as_int_term(lift(x)) for x in (sq, ta, tb, liq)]
+    a = [_as_int(x) for x in (sq, ta, tb, liq)]
     r0, r1 = f0(*a), f1(*a)
     p.assume(z3.And(r0 >= 0, r1 >= 0), "contract get_amounts: non-negative, a function of (sqrt price, ticks, liquidity) (C07)")
     return SV(r0, DEC), SV(r1, DEC)
